@@ -150,6 +150,23 @@ func units(tier string) []mc.Unit {
 		}
 	}
 
+	// family D: large certificates (sizes around the powers of two a batching or windowed conversion would pick)
+	sizes := []int{127, 129, 257}
+	if thorough {
+		sizes = []int{63, 64, 65, 100, 127, 128, 129, 200, 255, 256, 257, 300, 511, 513, 1000}
+	}
+	for _, n := range sizes {
+		var es []exitV
+		var is []impV
+		for i := 0; i < n; i++ {
+			es = append(es, exits[i%12])
+			is = append(is, impV{Kind: i % 2, Rollup: i % 2 * (1 + i/2%4), LeafIdx: -1, Leaf: uint32(i / 2), Inner: exits[(i*5+7)%12]})
+		}
+		pipeline(nil, is)
+		pipeline(es, nil)
+		pipeline(es[:n/2+1], is[:n/2+1])
+	}
+
 	// ---- perturbation set
 	if thorough {
 		for _, es := range seqs(exits, 2) { // every exit sequence
